@@ -346,13 +346,34 @@ theorem misaligned_without_compaction :
 /-- **A rejected line is observationally a no-op.** A parse failure changes nothing at all. A compile
     failure changes the state only by `compact`: every variable reads the same value and the result
     that flows into the next line is the same. -/
-theorem rejected_line_observationally_noop (nil : α) (s : Session α) :
+theorem rejected_line_observationally_noop (nil : α) (s : Session α) (attempted : List String) :
     runLine nil s .parseError = s ∧
-    (InRange s → (∀ x, lookup (runLine nil s .compileError) x = lookup s x) ∧
-      nextArgument (runLine nil s .compileError) = nextArgument s ∧
-      (runLine nil s .compileError).bindings.map (·.1) = s.bindings.map (·.1)) := by
-  refine ⟨rfl, fun hr => ⟨fun x => compact_preserves_lookup s hr x, rfl, ?_⟩⟩
+    (InRange s → (∀ x, lookup (runLine nil s (.compileError attempted)) x = lookup s x) ∧
+      nextArgument (runLine nil s (.compileError attempted)) = nextArgument s ∧
+      (runLine nil s (.compileError attempted)).lastResultTy = s.lastResultTy ∧
+      (runLine nil s (.compileError attempted)).moduleCache = s.moduleCache ∧
+      (runLine nil s (.compileError attempted)).bindings.map (·.1) = s.bindings.map (·.1)) := by
+  refine ⟨rfl, fun hr => ⟨fun x => compact_preserves_lookup s hr x, rfl, rfl, rfl, ?_⟩⟩
   simp [runLine, compact, List.map_map, Function.comp_def]
+
+/-- **Module-cache rollback.** Whatever a rejected line had imported before it failed, the session's
+    module cache afterwards is the one before the line (the compiler worked on a clone) — so a later
+    line that imports the same module compiles it afresh against the committed program. A line that
+    compiles (code or not) commits exactly its imports. -/
+theorem rejected_line_keeps_module_cache (nil : α) (s : Session α) (attempted : List String) :
+    (runLine nil s .parseError).moduleCache = s.moduleCache ∧
+    (runLine nil s (.compileError attempted)).moduleCache = s.moduleCache ∧
+    (∀ b im, (runLine nil s (.noCode b im)).moduleCache = addModules s.moduleCache im) ∧
+    (∀ eff, (runLine nil s (.ran eff)).moduleCache = addModules s.moduleCache eff.imports) :=
+  ⟨rfl, rfl, fun _ _ => rfl, fun _ => rfl⟩
+
+/-- Witness for the leaky rule (seeded changes C11-1 / C10-3 / C07-3): the rejected line's first import
+    of `list` stays cached, so the session differs from the one that never saw the line. -/
+theorem leaky_rule_keeps_rejected_imports :
+    let s : Session String := { bindings := [("x", 0)], locals := ["1"], lastResult := "Ok" }
+    (runLine "nil" s (.compileError ["list"])).moduleCache = [] ∧
+    (runLineLeaky "nil" s (.compileError ["list"])).moduleCache = ["list"] := by
+  decide
 
 /-- **The flowing result stays typed.** Whatever happens to a line — parse error, compile error, a
     code-less line of type definitions, or a line that ran and whose result has its static result
@@ -364,21 +385,22 @@ theorem runLine_preserves_argTyped (nil : α) (hasTy : α → String → Prop) (
     ArgTyped hasTy (runLine nil s o) := by
   cases o with
   | parseError => exact h
-  | compileError => exact h
-  | noCode b => exact h
+  | compileError att => exact h
+  | noCode b im => exact h
   | ran eff => exact hran eff rfl
 
-theorem code_less_line_keeps_result_and_type (nil : α) (s : Session α) (b : List (String × Nat)) :
-    nextArgument (runLine nil s (.noCode b)) = nextArgument s ∧
-    (runLine nil s (.noCode b)).lastResultTy = s.lastResultTy := ⟨rfl, rfl⟩
+theorem code_less_line_keeps_result_and_type (nil : α) (s : Session α) (b : List (String × Nat))
+    (im : List String) :
+    nextArgument (runLine nil s (.noCode b im)) = nextArgument s ∧
+    (runLine nil s (.noCode b im)).lastResultTy = s.lastResultTy := ⟨rfl, rfl⟩
 
 /-- Witness for F-C11-1 (the rule before 7b757f2): after `5` the session holds `5 : 'int`; a
     type-definition line makes the old rule record the type `[]` for the still-flowing `5`. -/
 theorem old_rule_forgets_result_type :
     let hasTy : String → String → Prop := fun v t => (v = "5" ∧ t = "'int") ∨ (v = "nil" ∧ t = "[]")
     let s : Session String := { bindings := [], locals := ["nil"], lastResult := "5", lastResultTy := "'int" }
-    ArgTyped hasTy s ∧ ¬ ArgTyped hasTy (runLineOld "nil" s (.noCode [])) ∧
-      ArgTyped hasTy (runLine "nil" s (.noCode [])) := by
+    ArgTyped hasTy s ∧ ¬ ArgTyped hasTy (runLineOld "nil" s (.noCode [] [])) ∧
+      ArgTyped hasTy (runLine "nil" s (.noCode [] [])) := by
   refine ⟨Or.inl ⟨rfl, rfl⟩, ?_, Or.inl ⟨rfl, rfl⟩⟩
   intro h
   rcases h with ⟨_, h2⟩ | ⟨h1, _⟩
